@@ -1,13 +1,14 @@
-SPECIFICATION Spec
+SPECIFICATION XSpec
 CONSTANTS
- Fam = "ds"
- P1 = 5
- P2 = 4
+ Fam = "plain"
+ P1 = 4
+ P2 = 0
  Dev = {}
 INVARIANT Shape
 INVARIANT Final
 INVARIANT RoundTrip
 INVARIANT OrigKept
 INVARIANT Laws
+INVARIANT ExportInv
 PROPERTY Grows
 CHECK_DEADLOCK FALSE
